@@ -225,12 +225,22 @@ def run(ctx):
     ctx.check(piece_writes >= 2 and slash >= 1 and flush_before_piece, "writer:placement-structure",
               "the placement writer lacks piece letters, empty-count flushes before pieces, or '/' separators (pieces %d, slashes %d)" % (piece_writes, slash), where)
     # ------------------------------------------------------------------ placement reader
-    pb = f.need(B + "::parse_board")
-    pps = sym.SymExec(f, pb, inline=lambda n: False if n in g.W else None, max_paths=100000).run()
+    # the placement reader: the stage(s) of the parser that call the placement writer, with private helpers inlined
+    from .common import reachable_bodies
+    from ..facts import callee_name
+    place_w = {w for w, r in g.wrole.items() if r == "board" and f.bodies[w].argc == 4}
+    board_stages = [k for k in sorted(reachable_bodies(f, [B + "::from_fen"])) if g.is_stage(k) and "board" in g.stage_roles(k)]
+    top = [k for k in board_stages if any(callee_name(t_) in place_w for k2 in reachable_bodies(f, [k], stop=lambda n: n in g.W) for bb_, t_ in f.bodies[k2].calls())]
+    # keep the outermost ones (called from from_fen directly)
+    direct = {callee_name(t_) for bb_, t_ in f.need(B + "::from_fen").calls()}
+    top = [k for k in top if k in direct] or top
+    pb = f.need(top[0]) if top else f.need(B + "::parse_board")
+    helpers = set(board_stages) - {pb.key}
+    pps = sym.SymExec(f, pb, inline=lambda n: False if n in g.W else (True if n in helpers else None), max_paths=100000).run()
     nplace = 0
     for p in pps:
         for e in p.events:
-            if e.kind == "call" and e.depth == 0 and g.wrole.get(e.name) == "board" and len(e.args) == 4:
+            if e.kind == "call" and g.wrole.get(e.name) == "board" and len(e.args) == 4:
                 nplace += 1
                 piece, colour, sq = e.args[1], e.args[2], L.lift(e.args[3])
                 ch = sym.subterms(piece, lambda y: y[0] == "call" and y[1] == "char::to_ascii_lowercase")
@@ -369,11 +379,16 @@ def run(ctx):
                     fileval = dict(val[4])["0"] if val[0] == "agg" else None
                     via_table = fileval is not None and sym.contains(fileval, lambda y: y[0] == "call" and y[1].endswith("TryInto<U>>::try_into")) and \
                         sym.contains(fileval, lambda y: y[0] == "call" and y[1] == "char::to_ascii_lowercase")
-                    lw = L.lift(wing)
-                    side_ok = lw[0] == "bin" and lw[1] == "Lt" and lw[2][0] == "file" and lw[2][1][0] == "king"
+                    from .c06 import natom
+                    la, lpol = natom(L.lift(wing), 1)
+                    side_ok = la[0] == "bin" and la[1] == "Lt" and la[2][0] == "file" and la[2][1][0] == "king" and lpol is True
                     if wing in (sym.TRUE, sym.FALSE):
-                        cmpc = [c for c in conds if L.lift(c[0])[0] == "bin" and L.lift(c[0])[1] == "Lt" and L.lift(c[0])[2][0] == "file"]
-                        side_ok = bool(cmpc) and ((wing == sym.TRUE) == bool(cmpc[-1][1]))
+                        cmpc = []
+                        for c in conds:
+                            ca, cpol = natom(L.lift(c[0]), c[1])
+                            if ca[0] == "bin" and ca[1] == "Lt" and ca[2][0] == "file" and ca[2][1][0] == "king":
+                                cmpc.append(cpol)
+                        side_ok = bool(cmpc) and ((wing == sym.TRUE) == cmpc[-1])
                     ctx.check(via_table and side_ok, "reader:shredder-letter", "a Shredder castling letter is not decoded through the File table with short <=> king file < rook file", loc(cb),
                               sample={"reader(shredder)": "file = lowercase(c).try_into(); short = king.file() < file"} if shred == 1 else None)
     want = {"k": (sym.TRUE, ("enum", FILE, "H")), "q": (sym.FALSE, ("enum", FILE, "A"))}
